@@ -3,6 +3,7 @@
 element exactly once (refinement to `ciSpec`), and the forward drain is the `orbit` the hull model uses.
 -/
 import Spade.Algo.CircIter
+import Spade.Proofs.Orbit
 namespace Spade
 open Spade.Generated
 
@@ -190,4 +191,38 @@ theorem CI_drain_orbit (step : Nat → Nat) (start : Nat) (fuel cur : Nat) :
     · simp only [h, if_true]; rw [CI_drain_done _ _ rfl]
     · simp only [h, if_false]; rw [ih]
 
+/-- a closed orbit of a step function with a left inverse on an invariant set is a cycle in the sense of
+    `IsCycle`, with `cyc i` the `i`-fold iterate -/
+theorem orbit_isCycle (step inv : Nat → Nat) (P : Nat → Prop) (hstep : ∀ x, P x → P (step x))
+    (hinv : ∀ x, P x → inv (step x) = x) (start : Nat) (hs : P start) (fuel : Nat)
+    (hclosed : orbitClosed step start (orbit step start fuel start)) :
+    IsCycle step inv (fun i => iter step i start) (orbit step start fuel start).length := by
+  have hP : ∀ k, P (iter step k start) := by
+    intro k; induction k with
+    | zero => exact hs
+    | succ k ih => rw [iter_succ']; exact hstep _ ih
+  have hpos : 0 < (orbit step start fuel start).length := by
+    cases hl : orbit step start fuel start with
+    | nil => simp [orbitClosed, hl] at hclosed
+    | cons a t => simp
+  refine ⟨hpos, fun i => (iter_succ' step i start).symm, ?_, ?_, ?_⟩
+  · intro i
+    show inv (iter step (i + 1) start) = iter step i start
+    rw [iter_succ', hinv _ (hP i)]
+  · show iter step (orbit step start fuel start).length start = iter step 0 start
+    unfold orbitClosed at hclosed
+    rw [List.getLast?_eq_getElem?] at hclosed
+    have hlt : (orbit step start fuel start).length - 1 < (orbit step start fuel start).length := by omega
+    rw [List.getElem?_eq_getElem hlt] at hclosed
+    simp only at hclosed
+    rw [orbit_getElem _ _ _ _ _ hlt] at hclosed
+    have : (orbit step start fuel start).length = ((orbit step start fuel start).length - 1) + 1 := by omega
+    rw [this, iter_succ', hclosed]; rfl
+  · intro i j hi hj hij
+    have hnd := orbit_nodup step inv P hstep hinv start hs fuel
+    rw [List.nodup_iff_injective_get] at hnd
+    have := @hnd ⟨i, hi⟩ ⟨j, hj⟩ (by
+      simp only [List.get_eq_getElem]
+      rw [orbit_getElem _ _ _ _ _ hi, orbit_getElem _ _ _ _ _ hj]; exact hij)
+    exact Fin.mk.inj this
 end Spade
